@@ -4,6 +4,9 @@
 //!       `env <dom> <ty> <pay> <sig> <key> <expty>` (1 = unchanged)     verify + payload_and_signing_key
 //!       `rec <envok> <recdec> <pidparse> <pidsigner> <addrs>`           PeerRecord::from_signed_envelope(_interop)
 //!       `mutate <keyty> <pos> <xor>`                                    one byte of an encoded envelope changed
+//!       `sigstruct <keyty> <variant> <changed>`                          structure-aware signature mutation (ECDSA twin (r, n-s), s+n, r+n,
+//!                                                                       DER integer/length laxness, ed25519 S+L / small-order R, RSA s+N …)
+//!                                                                       through PublicKey::verify, SignedEnvelope and PeerRecord
 //!       `sigpayload <d> <t> <p>`                                        the exact signed bytes (cfg(libp2p_verif) hook)
 //!       `resplit <keyty> <d> <t> <p> <d'> <t'> <p'> <full|omit>`        envelope signed for (d,t,p) presented as (d',t',p')
 //!                                                                       with the same key and signature
@@ -314,6 +317,315 @@ fn splits(x: &[u8]) -> Vec<[Vec<u8>; 3]> {
     v
 }
 
+// ---------------------------------------------------------------- structure-aware signature mutations
+
+/// secp256k1 group order
+const N_K256: &str = "fffffffffffffffffffffffffffffffebaaedce6af48a03bbfd25e8cd0364141";
+/// NIST P-256 group order
+const N_P256: &str = "ffffffff00000000ffffffffffffffffbce6faada7179e84f3b9cac2fc632551";
+/// ed25519 group order L, little endian
+const L_ED25519: &str = "edd3f55c1a631258d69cf7a2def9de1400000000000000000000000000000010";
+
+fn strip0(a: &[u8]) -> Vec<u8> {
+    let i = a.iter().take_while(|x| **x == 0).count();
+    a[i..].to_vec()
+}
+
+/// big-endian a + b
+fn be_add(a: &[u8], b: &[u8]) -> Vec<u8> {
+    let n = a.len().max(b.len()) + 1;
+    let mut out = vec![0u8; n];
+    let mut carry = 0u16;
+    for i in 0..n {
+        let x = if i < a.len() { a[a.len() - 1 - i] as u16 } else { 0 };
+        let y = if i < b.len() { b[b.len() - 1 - i] as u16 } else { 0 };
+        let t = x + y + carry;
+        out[n - 1 - i] = t as u8;
+        carry = t >> 8;
+    }
+    strip0(&out)
+}
+
+/// big-endian a - b (a >= b)
+fn be_sub(a: &[u8], b: &[u8]) -> Vec<u8> {
+    let n = a.len();
+    let mut out = vec![0u8; n];
+    let mut borrow = 0i16;
+    for i in 0..n {
+        let x = a[n - 1 - i] as i16;
+        let y = if i < b.len() { b[b.len() - 1 - i] as i16 } else { 0 };
+        let mut t = x - y - borrow;
+        borrow = 0;
+        if t < 0 {
+            t += 256;
+            borrow = 1;
+        }
+        out[n - 1 - i] = t as u8;
+    }
+    strip0(&out)
+}
+
+fn der_len_bytes(n: usize) -> Vec<u8> {
+    if n < 128 {
+        vec![n as u8]
+    } else if n < 256 {
+        vec![0x81, n as u8]
+    } else {
+        vec![0x82, (n >> 8) as u8, n as u8]
+    }
+}
+
+/// strict DER INTEGER of a non-negative big-endian magnitude
+fn der_int(mag: &[u8]) -> Vec<u8> {
+    let mut m = strip0(mag);
+    if m.is_empty() {
+        m.push(0);
+    }
+    if m[0] & 0x80 != 0 {
+        m.insert(0, 0);
+    }
+    let mut v = vec![0x02];
+    v.extend(der_len_bytes(m.len()));
+    v.extend(m);
+    v
+}
+
+fn der_seq(items: &[Vec<u8>]) -> Vec<u8> {
+    let body: Vec<u8> = items.concat();
+    let mut v = vec![0x30];
+    v.extend(der_len_bytes(body.len()));
+    v.extend(body);
+    v
+}
+
+/// (tag, content, rest) of the first TLV
+fn tlv(b: &[u8]) -> (u8, &[u8], &[u8]) {
+    let (len, hdr) = match b[1] {
+        l if l < 128 => (l as usize, 2),
+        0x81 => (b[2] as usize, 3),
+        _ => (((b[2] as usize) << 8) | b[3] as usize, 4),
+    };
+    (b[0], &b[hdr..hdr + len], &b[hdr + len..])
+}
+
+/// the two INTEGER magnitudes of `SEQUENCE { INTEGER, INTEGER }`
+fn two_ints(der: &[u8]) -> (Vec<u8>, Vec<u8>) {
+    let (_, body, _) = tlv(der);
+    let (_, a, rest) = tlv(body);
+    let (_, b2, _) = tlv(rest);
+    (strip0(a), strip0(b2))
+}
+
+const ECDSA_VARIANTS: [&str; 17] = [
+    "reencode", "high_s", "s_plus_n", "r_plus_n", "s_plus_2n", "s_leading_zero", "r_leading_zero", "s_no_pad",
+    "trailing_byte", "trailing_in_seq", "seq_long_form", "int_long_form", "zero_s", "zero_r", "s_equals_n", "swap_r_s", "indefinite",
+];
+const ED_VARIANTS: [&str; 14] = [
+    "reencode", "s_plus_l", "s_plus_2l", "s_top_bit", "r_sign_flip", "r_small_0", "r_small_1", "r_small_2", "r_small_3",
+    "r_small_4", "r_small_5", "r_small_6", "r_small_7", "trailing_byte",
+];
+const RSA_VARIANTS: [&str; 6] = ["reencode", "s_plus_n", "leading_zero", "trailing_byte", "n_minus_s", "s_plus_n_wrapped"];
+
+/// ed25519 points of small order (canonical and non-canonical encodings)
+const ED_SMALL_ORDER: [&str; 8] = [
+    "0100000000000000000000000000000000000000000000000000000000000000",
+    "ecffffffffffffffffffffffffffffffffffffffffffffffffffffffffffff7f",
+    "0000000000000000000000000000000000000000000000000000000000000080",
+    "0000000000000000000000000000000000000000000000000000000000000000",
+    "c7176a703d4dd84fba3c0b760d10670f2a2053fa2c39ccc64ec7fd7792ac037a",
+    "c7176a703d4dd84fba3c0b760d10670f2a2053fa2c39ccc64ec7fd7792ac03fa",
+    "26e8958fc2b227b045c3f489f2ef98f0d5dfac05d3c63339b13802886d53fc05",
+    "26e8958fc2b227b045c3f489f2ef98f0d5dfac05d3c63339b13802886d53fc85",
+];
+
+fn variants_of(kty: u32) -> &'static [&'static str] {
+    match kty {
+        0 => &RSA_VARIANTS,
+        1 => &ED_VARIANTS,
+        _ => &ECDSA_VARIANTS,
+    }
+}
+
+/// the mutated signature, or None when the variant does not apply to this signature
+fn mutate_sig(kty: u32, variant: &str, sig: &[u8], rsa_modulus: &[u8]) -> Option<Vec<u8>> {
+    match kty {
+        2 | 3 => {
+            let n = hcore::unhex(if kty == 2 { N_K256 } else { N_P256 });
+            let (r, s_) = two_ints(sig);
+            let strict = |r: &[u8], s_: &[u8]| der_seq(&[der_int(r), der_int(s_)]);
+            let raw_int = |content: Vec<u8>| {
+                let mut v = vec![0x02];
+                v.extend(der_len_bytes(content.len()));
+                v.extend(content);
+                v
+            };
+            Some(match variant {
+                "reencode" => strict(&r, &s_),
+                "high_s" => strict(&r, &be_sub(&n, &s_)),
+                "s_plus_n" => strict(&r, &be_add(&s_, &n)),
+                "s_plus_2n" => strict(&r, &be_add(&be_add(&s_, &n), &n)),
+                "r_plus_n" => strict(&be_add(&r, &n), &s_),
+                "s_leading_zero" => {
+                    let mut c = tlv(&der_int(&s_)).1.to_vec();
+                    c.insert(0, 0);
+                    der_seq(&[der_int(&r), raw_int(c)])
+                }
+                "r_leading_zero" => {
+                    let mut c = tlv(&der_int(&r)).1.to_vec();
+                    c.insert(0, 0);
+                    der_seq(&[raw_int(c), der_int(&s_)])
+                }
+                "s_no_pad" => {
+                    if s_[0] & 0x80 == 0 {
+                        return None;
+                    }
+                    der_seq(&[der_int(&r), raw_int(s_.clone())])
+                }
+                "trailing_byte" => [strict(&r, &s_), vec![0]].concat(),
+                "trailing_in_seq" => der_seq(&[der_int(&r), der_int(&s_), vec![0]]),
+                "seq_long_form" => {
+                    let body = [der_int(&r), der_int(&s_)].concat();
+                    let mut v = vec![0x30, 0x81, body.len() as u8];
+                    v.extend(body);
+                    v
+                }
+                "int_long_form" => {
+                    let c = tlv(&der_int(&s_)).1.to_vec();
+                    let mut i = vec![0x02, 0x81, c.len() as u8];
+                    i.extend(c);
+                    der_seq(&[der_int(&r), i])
+                }
+                "zero_s" => strict(&r, &[0]),
+                "zero_r" => strict(&[0], &s_),
+                "s_equals_n" => strict(&r, &n),
+                "swap_r_s" => strict(&s_, &r),
+                _ => {
+                    let body = [der_int(&r), der_int(&s_)].concat();
+                    let mut v = vec![0x30, 0x80];
+                    v.extend(body);
+                    v.extend([0, 0]);
+                    v
+                }
+            })
+        }
+        1 => {
+            let (r, s_) = (sig[..32].to_vec(), sig[32..].to_vec());
+            let l_be: Vec<u8> = hcore::unhex(L_ED25519).into_iter().rev().collect();
+            let s_be: Vec<u8> = s_.iter().rev().cloned().collect();
+            let le32 = |be: Vec<u8>| -> Option<Vec<u8>> {
+                let be = strip0(&be);
+                if be.len() > 32 {
+                    return None;
+                }
+                let mut v: Vec<u8> = be.into_iter().rev().collect();
+                v.resize(32, 0);
+                Some(v)
+            };
+            Some(match variant {
+                "reencode" => sig.to_vec(),
+                "s_plus_l" => [r, le32(be_add(&s_be, &l_be))?].concat(),
+                "s_plus_2l" => [r, le32(be_add(&be_add(&s_be, &l_be), &l_be))?].concat(),
+                "s_top_bit" => {
+                    let mut s2 = s_.clone();
+                    s2[31] |= 0x80;
+                    [r, s2].concat()
+                }
+                "r_sign_flip" => {
+                    let mut r2 = r.clone();
+                    r2[31] ^= 0x80;
+                    [r2, s_].concat()
+                }
+                "trailing_byte" => [sig.to_vec(), vec![0]].concat(),
+                v => {
+                    let i: usize = v.strip_prefix("r_small_")?.parse().ok()?;
+                    [hcore::unhex(ED_SMALL_ORDER[i]), s_].concat()
+                }
+            })
+        }
+        _ => {
+            let k = sig.len();
+            let fit = |v: Vec<u8>| -> Vec<u8> {
+                // left-pad to the modulus length when it fits, otherwise keep the longer form
+                let v = strip0(&v);
+                if v.len() <= k {
+                    [vec![0u8; k - v.len()], v].concat()
+                } else {
+                    v
+                }
+            };
+            Some(match variant {
+                "reencode" => sig.to_vec(),
+                "s_plus_n" => fit(be_add(sig, rsa_modulus)),
+                "leading_zero" => [vec![0u8], sig.to_vec()].concat(),
+                "trailing_byte" => [sig.to_vec(), vec![0u8]].concat(),
+                "n_minus_s" => fit(be_sub(rsa_modulus, &strip0(sig))),
+                _ => {
+                    // s + N truncated to the modulus length (what a fixed-width reader would see)
+                    let v = be_add(sig, rsa_modulus);
+                    if v.len() <= k {
+                        return None;
+                    }
+                    v[v.len() - k..].to_vec()
+                }
+            })
+        }
+    }
+}
+
+fn scheme_name(kty: u32) -> &'static str {
+    ["rsa", "ed25519", "secp256k1", "ecdsa"][kty as usize]
+}
+
+/// one structure-aware signature mutation, through `PublicKey::verify`, a `SignedEnvelope` and a `PeerRecord`
+fn op_sigstruct(out: &mut Out, key_seed: u64, kty: u32, variant: &str) {
+    let r = hcore::guarded(|| {
+        let mut rng = Rng::new(key_seed);
+        let kp = keypair(&mut rng, kty);
+        let me = kp.public().to_peer_id();
+        let addrs: Vec<Vec<u8>> = sample_addrs(&mut rng).iter().map(|a| a.to_vec()).collect();
+        let payload = record_payload(&me.to_bytes(), 1 + rng.below(1 << 40), &addrs);
+        let (dom, pty) = DOMAINS[1];
+        let env = SignedEnvelope::new(&kp, dom.to_string(), pty.to_vec(), payload.clone()).expect("sign");
+        let mut f = split_envelope(&env.into_protobuf_encoding());
+        let sig = f[3].clone();
+        let msg = libp2p_core::signed_envelope::verif_c21::verif_signature_payload(dom.to_string(), pty, &payload);
+        assert!(kp.public().verify(&msg, &sig), "generator: own signature must verify");
+        let modulus = if kty == 0 {
+            let pk = kp.public().try_into_rsa().unwrap().encode_pkcs1();
+            two_ints(&pk).0
+        } else {
+            vec![]
+        };
+        let mutated = mutate_sig(kty, variant, &sig, &modulus)?;
+        let changed = mutated != sig;
+        let v = kp.public().verify(&msg, &mutated);
+        f[3] = mutated;
+        let (e, rec) = match SignedEnvelope::from_protobuf_encoding(&join_envelope(&f)) {
+            Err(_) => ("err:decode", "err:decode"),
+            Ok(env2) => {
+                let e = match env2.payload_and_signing_key(dom.to_string(), pty) {
+                    Ok(_) => "ok",
+                    Err(libp2p_core::signed_envelope::ReadPayloadError::InvalidSignature) => "err:sig",
+                    Err(libp2p_core::signed_envelope::ReadPayloadError::UnexpectedPayloadType { .. }) => "err:type",
+                };
+                (e, rec_verdict(PeerRecord::from_signed_envelope_interop(env2)))
+            }
+        };
+        Some((changed, format!("verify={} env={} rec={}", b(v), e, rec)))
+    });
+    match r {
+        Ok(None) => {}
+        Ok(Some((changed, t))) => {
+            out.op(&format!("sigstruct {} {} {}", scheme_name(kty), variant, b(changed)));
+            out.imp(&t);
+        }
+        Err(m) => {
+            out.op(&format!("sigstruct {} {} 1", scheme_name(kty), variant));
+            out.imp(&format!("panic:{m} - -"));
+        }
+    }
+}
+
 fn rec_verdict(r: Result<PeerRecord, FromEnvelopeError>) -> &'static str {
     match r {
         Ok(_) => "ok",
@@ -464,6 +776,10 @@ pub fn run(args: &Args, out: &mut Out) {
                     "rec" => {
                         let sc: u32 = hdr.iter().find_map(|t| t.strip_prefix("sc=")).and_then(|s| s.parse().ok()).unwrap_or(0);
                         op_rec(out, &mut rng, kty, sc)
+                    }
+                    "sigstruct" => {
+                        let kty = ["rsa", "ed25519", "secp256k1", "ecdsa"].iter().position(|x| *x == op[1]).unwrap() as u32;
+                        op_sigstruct(out, seed, kty, &op[2])
                     }
                     "sigpayload" => op_sigpayload(out, &hcore::unhex(&op[1]), &hcore::unhex(&op[2]), &hcore::unhex(&op[3])),
                     "resplit" => {
@@ -641,6 +957,24 @@ pub fn run(args: &Args, out: &mut Out) {
             }
             out.end();
             idx += 1;
+        }
+    }
+    // 7. structure-aware signature mutations: every variant, every key type, many keys/messages
+    {
+        let reps = args.n(12, 400);
+        for rep in 0..reps {
+            for kty in 0..4u32 {
+                if kty == 0 && rep % 4 != 0 {
+                    continue; // one RSA fixture key: fewer repetitions
+                }
+                let seed = args.seed.wrapping_mul(17_000_023).wrapping_add(rep * 4 + kty as u64);
+                out.case(idx, &format!("sigstruct{kty} nt=1 rng={seed} kty={kty}"));
+                for v in variants_of(kty) {
+                    op_sigstruct(out, seed, kty, v);
+                }
+                out.end();
+                idx += 1;
+            }
         }
     }
     // 4. single-byte mutations of an encoded peer-record envelope: every position; thorough: every
